@@ -50,6 +50,8 @@ type Case struct {
 	Expect     []string    `json:"expect,omitempty"` // absolute expectations (wrappers), see checkExpect
 	NilChainID bool        `json:"nil_chain_id,omitempty"`
 	Create     bool        `json:"create,omitempty"`
+	To         string      `json:"to,omitempty"`
+	Probe      []string    `json:"probe,omitempty"`
 }
 
 type prog struct {
@@ -68,6 +70,8 @@ type prog struct {
 	record     bool                       // record per-step states (divergence locator)
 	nilChainID bool                       // run KVM under a chain config whose ChainID is nil (always-oracles only, no reference run)
 	create     bool                       // code is init code: top-level KVM.Create instead of KVM.Call
+	toAddr     *addr20                    // top-level call goes to this address instead of the main contract (transaction-style call to a precompile)
+	probe      []addr20                   // additional addresses whose account state is part of the compared / expected post-state
 	capKey     string                     // key of the per-family cap on processed violating cases (default: family)
 	onKVM      func(iset int, k *outcome) // optional per-family observer of the first KVM outcome (vacuity counters)
 }
@@ -75,6 +79,12 @@ type prog struct {
 func (p *prog) toCase(iset int) Case {
 	c := Case{Family: p.family, Name: p.name, ISet: iset, NilChainID: p.nilChainID, Create: p.create, Code: fmt.Sprintf("%x", p.code), Input: fmt.Sprintf("%x", p.input), Gas: p.gas,
 		Value: p.value, PreludeEnd: p.preludeEnd, StepBound: p.stepBound, Expect: p.expect}
+	if p.toAddr != nil {
+		c.To = fmt.Sprintf("%x", p.toAddr[:])
+	}
+	for _, a := range p.probe {
+		c.Probe = append(c.Probe, fmt.Sprintf("%x", a[:]))
+	}
 	for _, e := range p.extra {
 		ea := extraAcct{Addr: fmt.Sprintf("%x", e.addr[:]), Code: fmt.Sprintf("%x", e.code)}
 		for _, kv := range e.storage {
@@ -579,6 +589,12 @@ func runKVM(w *kworld, p *prog, iset int, count *[256]uint64) (out outcome) {
 	}
 	s := mkState()
 	main := kcommon.Address(addrMain)
+	if p.toAddr != nil {
+		main = kcommon.Address(*p.toAddr)
+	}
+	for _, a := range p.probe {
+		out.tr.noteAddr(a)
+	}
 	out.st = kprober{s}
 	if p.wantPre {
 		out.pre = func() prober { return kprober{mkState()} }
@@ -913,8 +929,14 @@ func runRef(w *gworld, p *prog, iset int, count *[256]uint64) (out outcome) {
 		}
 	}
 	main := gcommon.Address(addrMain)
+	if p.toAddr != nil {
+		main = gcommon.Address(*p.toAddr)
+	}
+	for _, a := range p.probe {
+		out.tr.noteAddr(a)
+	}
 	if !p.create {
-		s.SetCode(main, p.code)
+		s.SetCode(gcommon.Address(addrMain), p.code)
 	}
 	out.st = gprober{s}
 	if w.evm[iset] == nil {
